@@ -4,9 +4,11 @@ import I2P.Driver.StructOps
 import I2P.Driver.TimeOps
 import I2P.Driver.BaseOps
 import I2P.Driver.NetOps
+import I2P.Driver.VerifyOps
+import I2P.Driver.C16Ops
 open I2P.Driver
 
-def allOps : List (String × Op) := dataOps ++ kacOps ++ structOps ++ timeOps ++ baseOps ++ netOps
+def allOps : List (String × Op) := dataOps ++ kacOps ++ structOps ++ timeOps ++ baseOps ++ netOps ++ verifyOps ++ c16Ops
 
 def step (line : String) : String :=
   match line.trimAscii.toString.splitOn " " with
